@@ -13,6 +13,9 @@
 //	cancel:<caller>                      cancels the caller's request context
 //	close                                closes the connection
 //	settle                               nothing (observation point)
+//	gate | open                          (udp) the connection's next empty-ACK writes block in the socket until `open`:
+//	                                     the receive path that delivered a separate confirmable response is held up in its
+//	                                     ACK while the caller already has (and releases) the response
 //
 // An op prefixed with '+' is not followed by a wait: the next op races with it (its segment is "+").
 //
@@ -285,6 +288,27 @@ func runUDP(t *testing.T, bw bool, ops []string) (out string) {
 			}
 			return tx
 		}
+		// a slow socket for empty acknowledgements (see ops gate / open)
+		var gmu sync.Mutex
+		var gateCh chan struct{}
+		s.OnWrite = func(data []byte) {
+			if len(data) >= 4 && (data[0]>>4)&3 == byte(message.Acknowledgement) && data[1] == 0 {
+				gmu.Lock()
+				ch := gateCh
+				gmu.Unlock()
+				if ch != nil {
+					<-ch
+				}
+			}
+		}
+		openGate := func() {
+			gmu.Lock()
+			if gateCh != nil {
+				close(gateCh)
+				gateCh = nil
+			}
+			gmu.Unlock()
+		}
 		callerTok := map[int]string{}
 		callerMid := map[int]int32{}
 		lastDo := -1
@@ -365,6 +389,14 @@ func runUDP(t *testing.T, bw bool, ops []string) (out string) {
 					}
 				case f[0] == "close":
 					_ = cc.Close()
+				case f[0] == "gate":
+					gmu.Lock()
+					if gateCh == nil {
+						gateCh = make(chan struct{})
+					}
+					gmu.Unlock()
+				case f[0] == "open":
+					openGate()
 				case f[0] == "settle":
 				default:
 					panic("bad-op " + op)
@@ -386,6 +418,7 @@ func runUDP(t *testing.T, bw bool, ops []string) (out string) {
 			lastDo = -1
 			segs = append(segs, w.collect(tx))
 		}
+		openGate()
 		_ = cc.Close()
 		for _, c := range w.callers {
 			c.cancel()
@@ -502,7 +535,7 @@ func runTCP(t *testing.T, bw bool, ops []string) (out string) {
 					}
 				case f[0] == "close":
 					_ = cc.Close()
-				case f[0] == "settle":
+				case f[0] == "settle", f[0] == "gate", f[0] == "open":
 				default:
 					panic("bad-op " + op)
 				}
